@@ -79,6 +79,9 @@ class Engine:
     def realise(self, descs):
         """list of descriptors -> (python objects, descriptors in real iteration order) or None"""
         objs, ds = [], []
+        # half of the cases realise equal container descriptors as one shared object (aliasing inside and across values)
+        self.builder.memo = {} if self.chk.rng.random() < 0.5 else None
+        before = self.builder.shared
         try:
             for d in descs:
                 o, d2 = self.builder.build(d)
@@ -87,6 +90,10 @@ class Engine:
         except values.Retry:
             self.retries += 1
             return None
+        finally:
+            self.builder.memo = None
+        if self.builder.shared > before:
+            self.chk.count("aliased_containers")
         return objs, ds
 
     def impl_infer(self, objs, k):
